@@ -26,7 +26,7 @@ def _fresh_state(coordinates, demands, num_nodes, max_capacity, key):
     )
 
 
-def _lattice_generator(num_nodes, max_capacity, max_demand):
+def _lattice_generator(num_nodes, max_capacity, max_demand, min_demand=1):
     """Custom generator (jumanji's Generator interface): coordinates on the k/8 grid of the closed unit square
     (k = 0..8, coincident nodes possible), demands uniform in 1..max_demand INCLUSIVE (so max_capacity =
     max_demand really is tight).  Coordinates, axis-parallel and 3-4-5 / 6-8-10 legs and all their sums are exact
@@ -40,10 +40,16 @@ def _lattice_generator(num_nodes, max_capacity, max_demand):
         def __call__(self, key):
             key, ck, dk = jax.random.split(key, 3)
             coordinates = jax.random.randint(ck, (self.num_nodes + 1, 2), 0, 9).astype(jnp.float32) / 8.0
-            demands = jax.random.randint(dk, (self.num_nodes + 1,), 1, self.max_demand + 1)
+            demands = jax.random.randint(dk, (self.num_nodes + 1,), min_demand, self.max_demand + 1)
             return _fresh_state(coordinates, demands, self.num_nodes, self.max_capacity, key)
 
     return LatticeGenerator(num_nodes, max_capacity, max_demand)
+
+
+def _lattice0_generator(num_nodes, max_capacity, max_demand):
+    """Lattice instances whose customers may have demand 0 (inside the declared demand box [0, max_capacity]):
+    serving such a customer must leave the load unchanged, not refill the vehicle."""
+    return _lattice_generator(num_nodes, max_capacity, max_demand, min_demand=0)
 
 
 def _rect345_generator(num_nodes, max_capacity, max_demand):
@@ -106,6 +112,8 @@ class Adapter(EnvAdapter):
                 _c("l6_c9_d3_sparse", "lattice", 6, 9, 3, "sparse", 6, policies=POL5),
                 _c("l3_c2_d2_sparse", "lattice", 3, 2, 2, "sparse", 10, policies=POL5),   # tight
                 _c("l3_c1_d1_dense", "lattice", 3, 1, 1, "dense", 6, policies=POL5),      # forced depot after every customer
+                _c("z6_c4_d2_dense", "lattice0", 6, 4, 2, "dense", 8, policies=POL5),      # zero-demand customers
+                _c("z4_c2_d1_sparse", "lattice0", 4, 2, 1, "sparse", 6, policies=POL5),
                 # 3-4-5 rectangles: everything exact
                 _c("r3_c3_d3_dense", "rect345", 3, 3, 3, "dense", 10, policies=POL5),     # tight
                 _c("r3_c5_d2_sparse", "rect345", 3, 5, 2, "sparse", 8, policies=POL5),
@@ -124,6 +132,10 @@ class Adapter(EnvAdapter):
                     for rew in ("dense", "sparse"):
                         out.append(_c(f"{g}{n}_c{cap}_d{dem}_{rew}", gen, n, cap, dem, rew, eps, policies=POL5,
                                       probe_every=pe))
+        for n, cap, dem in ((3, 2, 1), (4, 2, 1), (6, 4, 2), (6, 3, 3), (20, 10, 3)):
+            for rew in ("dense", "sparse"):
+                out.append(_c(f"z{n}_c{cap}_d{dem}_{rew}", "lattice0", n, cap, dem, rew, 20 if n <= 6 else 6, policies=POL5,
+                              probe_every=1 if n <= 6 else 2))
         return out
 
     # ---- the real environment -------------------------------------------------------------
@@ -132,7 +144,8 @@ class Adapter(EnvAdapter):
         from jumanji.environments.routing.cvrp.generator import UniformGenerator
         from jumanji.environments.routing.cvrp.reward import DenseReward, SparseReward
 
-        mk = {"uniform": UniformGenerator, "lattice": _lattice_generator, "rect345": _rect345_generator}[ctor["generator"]]
+        mk = {"uniform": UniformGenerator, "lattice": _lattice_generator, "rect345": _rect345_generator,
+              "lattice0": _lattice0_generator}[ctor["generator"]]
         gen = mk(ctor["num_nodes"], ctor["max_capacity"], ctor["max_demand"])
         return CVRP(generator=gen, reward_fn=DenseReward() if rew == "dense" else SparseReward())
 
@@ -146,7 +159,7 @@ class Adapter(EnvAdapter):
         c = cfg["ctor"]
         return {"num_nodes": c["num_nodes"], "max_capacity": c["max_capacity"], "max_demand": c["max_demand"],
                 "reward_fn": c["reward_fn"], "generator": c["generator"],
-                "lattice": c["generator"] in ("lattice", "rect345")}
+                "lattice": c["generator"] in ("lattice", "rect345", "lattice0")}
 
     # ---- projection: add the distance matrix D -----------------------------------------------
     def project_state(self, env, state):
